@@ -33,6 +33,7 @@ from __future__ import annotations
 
 import ast
 import copy
+import os
 from dataclasses import dataclass, field
 from typing import Any, Iterable
 
@@ -40,6 +41,19 @@ from .report import AnalysisError
 from .util import canon, u
 
 PURE_SELF_METHODS: set[str] = set()
+
+
+def _loop_leaves(loop: ast.stmt) -> bool:
+    """Does the body of `loop` contain a `return` of its own (not inside a nested def / lambda)?"""
+    todo = list(ast.iter_child_nodes(loop))
+    while todo:
+        n = todo.pop()
+        if isinstance(n, (ast.FunctionDef, ast.AsyncFunctionDef, ast.Lambda, ast.ClassDef)):
+            continue
+        if isinstance(n, ast.Return):
+            return True
+        todo.extend(ast.iter_child_nodes(n))
+    return False
 
 
 class SymUnsupported(AnalysisError):
@@ -599,6 +613,9 @@ class SymExec:
             sub = _Subst(p.env).visit(copy.deepcopy(hdr))
             self._log(p, hdr, sub, ln)
             p.effects.append(Effect("loop", sub, p.epoch, ln, s))
+            if os.environ.get("VERIF_STRICT_LOOPS") and _loop_leaves(s):
+                raise SymUnsupported(f"line {ln}: a loop the walker treats as opaque contains a return "
+                                     "(the early exit would be dropped)")
             bound: set[str] = set()
             for n in ast.walk(s):
                 if isinstance(n, ast.Name) and isinstance(n.ctx, (ast.Store, ast.Del)):
